@@ -3,6 +3,7 @@
   python3 harness/run_seeded.py import /tmp/seed/C18/out C18        copy patch/demo/meta of a sub-agent into seeded/<name>/
   python3 harness/run_seeded.py confirm <name>...                   scratch worktree: applies, suite passes, demo fails with / passes without
   python3 harness/run_seeded.py check <name>... [--props C01,C02]   apply to /repo, run ./check for the property (and others), undo
+  python3 harness/run_seeded.py params [<name>...]                      what srcparams/srcprobe extract from each changed tree
   python3 harness/run_seeded.py iso <name>... [--props=..] [-j4]     same, but in a scratch worktree + scratch copy of /verif (parallel, /repo untouched)
   python3 harness/run_seeded.py table                               regenerate seeded/RESULTS.md
 
@@ -17,6 +18,7 @@ import time
 VERIF = os.path.dirname(os.path.dirname(os.path.abspath(__file__)))
 SEEDED = os.environ.get('LV_SEEDED_DIR', os.path.join(VERIF, 'seeded'))      # (harmless refactorings live in /verif/harmless)
 REPO = '/repo'
+REPLAYCHECK = False
 PY = '/venv/bin/python'
 
 
@@ -166,7 +168,23 @@ def _run_checks(name, plist, tier, verif, env, results, mode):
                 sigs.append(r.get('signature') or ('broken: ' + '; '.join(str(b.get('what') if isinstance(b, dict) else b)[:120] for b in r.get('broken', []))))
             except Exception:
                 sigs.append('?')
-        results[prop] = dict(tier=tier, exit=rc, detected=(rc == 1 and bool(viol)),
+        replay_rt = None
+        if REPLAYCHECK:
+            concrete = [l for l in viol if 'no-failing-input-found' not in l]
+            if concrete:
+                path = concrete[0].split('replay=')[1].split()[0]
+                rc_s, _ = sh([os.path.join(verif, 'check'), prop, '--replay', path], cwd=verif, env=env, timeout=600)
+                rc_c, _ = sh([os.path.join(verif, 'check'), prop, '--replay', path], cwd=verif, env=dict(env, LV_REPO=REPO), timeout=600)
+                replay_rt = dict(on_changed_tree=rc_s, on_clean_tree=rc_c, ok=(rc_s == 1 and rc_c == 0))
+        replay_rt = None
+        if REPLAYCHECK:
+            concrete = [l for l in viol if 'no-failing-input-found' not in l]
+            if concrete:
+                path = concrete[0].split('replay=')[1].split()[0]
+                rc_s, _ = sh([os.path.join(verif, 'check'), prop, '--replay', path], cwd=verif, env=env, timeout=600)
+                rc_c, _ = sh([os.path.join(verif, 'check'), prop, '--replay', path], cwd=verif, env=dict(env, LV_REPO=REPO), timeout=600)
+                replay_rt = dict(on_changed_tree=rc_s, on_clean_tree=rc_c, ok=(rc_s == 1 and rc_c == 0))
+        results[prop] = dict(tier=tier, exit=rc, detected=(rc == 1 and bool(viol)), replay_round_trip=replay_rt,
                              concrete_input=any('no-failing-input-found' not in l for l in viol),
                              signatures=sigs[:6], wall_s=round(time.time() - t0, 1), mode=mode)
         if rc not in (0, 1) or (rc == 1 and not viol):
@@ -182,6 +200,8 @@ def iso_one(name, props, tier, source=VERIF):
     wt, vf = base + '/repo', base + '/verif'
     meta = load_meta(name)
     plist = props or [meta.get('property', name[:3])]
+    if props == ['auto']:
+        plist = sorted(set(touched_props(os.path.join(d, 'patch.diff'))) | {meta.get('property', name[:3])})
     results = {}
     os.makedirs(base, exist_ok=True)
     try:
@@ -197,6 +217,68 @@ def iso_one(name, props, tier, source=VERIF):
         sh(['git', '-C', REPO, 'worktree', 'remove', '--force', wt])
         shutil.rmtree(base, ignore_errors=True)
     return name, results
+
+
+FILE_PROPS = {
+    'labtech/lab.py': 'C01 C02 C03 C04 C05 C10 C11 C14 C17',
+    'labtech/runners/process.py': 'C04 C05 C10 C11 C14 C16 C17 C19',
+    'labtech/runners/serial.py': 'C01 C02 C14 C16 C17',
+    'labtech/runners/base.py': 'C01 C14 C16',
+    'labtech/cache.py': 'C06 C08 C12 C13',
+    'labtech/storage.py': 'C06 C12 C13 C18',
+    'labtech/tasks.py': 'C03 C07 C09 C15',
+    'labtech/serialization.py': 'C07 C08 C09',
+    'labtech/diagram.py': 'C20',
+    'labtech/utils.py': 'C19',
+}
+
+
+def touched_props(patch):
+    """The properties whose modelled code lives in a file the patch touches (--props=auto)."""
+    out = []
+    for line in open(patch):
+        if line.startswith('+++ b/'):
+            out += FILE_PROPS.get(line[6:].strip(), '').split()
+    return out
+
+
+PARAMS_SNIPPET = '''
+import difflib, sys, srcparams
+text = srcparams.render()
+base = open(sys.argv[1]).read() if len(sys.argv) > 1 else ''
+if len(sys.argv) > 1:
+    d = [l[:160] for l in difflib.unified_diff(base.splitlines(), text.splitlines(), lineterm='', n=0)
+         if l[0] in '+-' and not l.startswith(('+++', '---')) and 'inferred by behavioural probe' not in l]
+    print('inferred=%s changed=%s' % (srcparams.INFERRED, d))
+else:
+    sys.stdout.write(text)
+'''
+
+
+def cmd_params(names):
+    """What harness/srcparams.py (ast extraction, then behavioural probes) makes of each change, against the unchanged
+    tree: which parameters were probed, and which lines of Gen/SrcParams.v come out differently."""
+    import tempfile
+    work = tempfile.mkdtemp(prefix='lv_params')
+    try:
+        env = dict(os.environ, LV_REPO=REPO, PYTHONPATH=f'{REPO}:{VERIF}/harness')
+        rc, base = sh([PY, '-c', PARAMS_SNIPPET], cwd=VERIF, env=env)
+        basef = os.path.join(work, 'base.v')
+        open(basef, 'w').write(base)
+        for name in names:
+            tree = os.path.join(work, name)
+            os.makedirs(tree)
+            shutil.copytree(os.path.join(REPO, 'labtech'), os.path.join(tree, 'labtech'))
+            rc, out = sh(['git', 'apply', '--include=labtech/*', os.path.join(SEEDED, name, 'patch.diff')], cwd=tree)
+            if rc != 0:
+                print(name, 'does not apply')
+            else:
+                env = dict(os.environ, LV_REPO=tree, PYTHONPATH=f'{tree}:{VERIF}/harness')
+                rc, out = sh([PY, '-c', PARAMS_SNIPPET, basef], cwd=VERIF, env=env)
+                print(name, out.strip().splitlines()[-1] if out.strip() else 'no output')
+            shutil.rmtree(tree, ignore_errors=True)
+    finally:
+        shutil.rmtree(work, ignore_errors=True)
 
 
 def cmd_iso(names, props=None, tier='quick', jobs=4):
@@ -246,6 +328,9 @@ def cmd_table():
 
 if __name__ == '__main__':
     a = sys.argv[1:]
+    if '--replaycheck' in a:
+        REPLAYCHECK = True
+        a = [x for x in a if x != '--replaycheck']
     if a[0] == 'import':
         cmd_import(a[1], a[2])
     elif a[0] == 'confirm':
@@ -269,8 +354,12 @@ if __name__ == '__main__':
                 tier = x.split('=')[1]
             elif x.startswith('-j'):
                 jobs = int(x[2:])
+            elif x == '--replaycheck':
+                REPLAYCHECK = True
             else:
                 names.append(x)
         cmd_iso(names, props, tier, jobs)
+    elif a[0] == 'params':
+        cmd_params(a[1:] or sorted(n for n in os.listdir(SEEDED) if os.path.isdir(os.path.join(SEEDED, n))))
     elif a[0] == 'table':
         cmd_table()
